@@ -43,6 +43,7 @@ func runC01(c *Ctx) {
 	defer c01ReadBytesDelivered(c)
 	c.Rule("C01.R9", "HTTP/2 to HTTP/2: the outgoing URL is the received one (or a copy of it with single fields changed), never composed anew", 1)
 	defer c01H2URLFromReceived(c)
+	defer c01RawViewsConsistent(c)
 	c.NotDecided = append(c.NotDecided, "HTTP/1.1 and HTTP/2 method/URI/header/body fidelity (runtime string values)", "tars byte identity (always re-encoded through TarsGo)", "header.EncodeHeader/DecodeHeader inverse property (dependency)")
 	c.Assumptions = append(c.Assumptions, "IoBuffer.Bytes() is a view of the buffer's array; Write/Clone/copy copy (mosn.io/pkg/buffer/iobuffer.go)", "passing wire bytes to TarsGo/thrift/hessian readers does not retain them in the frame")
 
